@@ -97,7 +97,12 @@ def run_harness(prop, seed, tier, extra_args=(), timeout=1200, binary=None):
     if os.path.exists(cases):
         with open(cases, "rb") as fh:
             for line in fh:
-                cl.append(json.loads(line))
+                try:
+                    cl.append(json.loads(line))
+                except ValueError:      # truncated last line of a harness that died: reported via rc
+                    if rc == 0:
+                        rc = 3
+                    break
     return rc, log, cl, m, wall
 
 
